@@ -102,6 +102,10 @@ class Backend:
         """Hash using the backend module."""
         return hash(self._xp_)
 
+    def __eq__(self, other) -> bool:
+        """Backends wrapping the same array module are interchangeable."""
+        return isinstance(other, Backend) and self._xp_ is other._xp_
+
     def __repr__(self) -> str:
         return f"Backend<{self.name}>"
 
